@@ -406,6 +406,37 @@ impl Endpoint<endpoint_side::Client> {
     }
 }
 
+#[cfg(feature = "verif-hooks")]
+#[doc(hidden)]
+impl Endpoint<endpoint_side::Server> {
+    /// Verification hook: wraps an already constructed QUIC endpoint (e.g. one that
+    /// runs on an in-memory socket) as a server endpoint.
+    pub fn verif_from_quic(endpoint: quinn::Endpoint) -> Self {
+        Self {
+            endpoint,
+            side: endpoint_side::Server {
+                _marker: PhantomData,
+            },
+        }
+    }
+}
+
+#[cfg(feature = "verif-hooks")]
+#[doc(hidden)]
+impl Endpoint<endpoint_side::Client> {
+    /// Verification hook: wraps an already constructed QUIC endpoint (with its default
+    /// client configuration set) as a client endpoint.
+    pub fn verif_from_quic(
+        endpoint: quinn::Endpoint,
+        dns_resolver: Arc<dyn DnsResolver + Send + Sync>,
+    ) -> Self {
+        Self {
+            endpoint,
+            side: endpoint_side::Client { dns_resolver },
+        }
+    }
+}
+
 /// Options for establishing a client WebTransport connection.
 ///
 /// Used in [`Endpoint::connect`].
